@@ -90,14 +90,15 @@ CLAIMED = {
                      "inverse pairs are two-contract lemmas; E8 (Verus) literals-header field widths on the encoder side.", "DESIGN.md 3.2, 4 C14"),
     "C15": ("proof", "E5V (Verus, unbounded, verbatim FrameCompressor::compress, every input length / read fragmentation / slice size): the frame is header, blocks, trailer and nothing else; "
             "every block but the last carries one full matcher space, exactly the final block is flagged last, the blocks' data concatenate to exactly the input (an exact "
-            "multiple ends with an empty raw last block); E4 (Kani, bounded sizes, symbolic contents): per block header/payload consistency, RLE only for constant blocks, raw fallback, cost <= 3 + length, "
+            "multiple ends with an empty raw last block); E4V (Verus, unbounded, verbatim compress_fastest, every block size and content): exactly one block - RLE iff all bytes equal, else compressed iff strictly smaller, "
+            "else raw byte for byte; size field = payload length; cost <= 3 + data; E4 (Kani, bounded sizes, symbolic contents): per block header/payload consistency, RLE only for constant blocks, raw fallback, cost <= 3 + length, "
             "compressed strictly smaller; E5 (bounded): frame structure, one last block, empty final block for exact multiples, nothing after the trailer; "
             "E3 (complete): emitted frame header parses back with a legal window >= the matcher's; H1' block header inverse; E8 literal header widths; "
             "E7V (Verus, unbounded): match offsets within the retained data and the advertised window.", "DESIGN.md 4 C15"),
     "C16": ("proof", "Obligations of the block encoder under an assumed well-behaved matcher: S1 encoder maps total over the whole value ranges (unreachable! arms "
             "unreachable), H6' every sequence count, F6 (bounded) normalisation total incl. single-symbol histograms, F7 (Verus) table writer total, E6 (concrete, thorough tier) "
-            "single-valued literals never reach the Huffman path, E4 ghost-sync (no Huffman table is kept "
-            "that the decoder did not receive), E8 literal header widths. Three defects of this class were found and repaired (F3 F4 F5 F8).", "DESIGN.md 4 C16, Part II 10"),
+            "single-valued literals never reach the Huffman path, E4V (Verus) / E4 (Kani) ghost-sync (no Huffman table is kept "
+            "that the decoder did not receive: the raw fallback forgets the table of the discarded compressed form), E8 literal header widths. Three defects of this class were found and repaired (F3 F4 F5 F8).", "DESIGN.md 4 C16, Part II 10"),
     "C17": ("proof", "E7V (Verus, verbatim bodies of MatchGenerator::new / reserve / add_data / skip_matching / next_sequence, every history of blocks, every window size): "
             "the window holds a chronological suffix of the blocks given, window_size = retained length <= maximum, base_offset of every entry = distance to the newest "
             "entry, stored suffix indices lie inside their entries; the property itself is the PRECONDITION OF THE CALLBACK, proved at each of the three call sites: literal "
